@@ -317,11 +317,19 @@ func (s *pSuite) run(kind, args string, msg sdk.Msg) {
 	preDg := w.storeDigest(w.Ctx)
 	branch := ""
 	h := w.App.MsgServiceRouter().Handler(msg)
+	// one transaction in twelve fails in a LATER message (a proposal whose second message is invalid): whatever this
+	// message did on the branch is discarded with it
+	later := s.r.Intn(12) == 0
+	hok := false
 	out := w.DeliverObs(func(ctx sdk.Context) error {
 		if h == nil {
 			return fmt.Errorf("no handler")
 		}
 		_, err := h(ctx, msg)
+		if err == nil && later {
+			hok = true
+			return fmt.Errorf("a later message of the transaction failed")
+		}
 		return err
 	}, func(b sdk.Context) {
 		bd := "0"
@@ -336,6 +344,13 @@ func (s *pSuite) run(kind, args string, msg sdk.Msg) {
 		}
 	})
 	post := s.fullState(w.Ctx)
+	if later {
+		args += " later=1"
+		if hok {
+			out.Class = "later"
+			branch = "hok=1 " + branch
+		}
+	}
 	s.t.Line(fmt.Sprintf("O %d %s %s => %s %s | %s", s.t.seq, kind, args, out.String(), branch, kvDiff(pre, post)))
 	s.stat[kind+":"+out.String()]++
 	if out.Class == "panic" {
